@@ -23,6 +23,7 @@ import NurbsVerif.Lemmas.HodographObject
 import NurbsVerif.Lemmas.DersOnDomain
 import NurbsVerif.Lemmas.RatTangent
 import NurbsVerif.Lemmas.RatTangentNorm
+import NurbsVerif.Lemmas.NormalizeAnyMag
 import NurbsVerif.Lemmas.RatTangentReal
 import NurbsVerif.Lemmas.RatTangentWitness
 import NurbsVerif.Lemmas.SpanRDers
@@ -68,7 +69,16 @@ the quotient-rule expression is the derivative (`quotient_rule_solves_leibniz_eq
 `tansn`, `nrmsn`): `normalized_vector_is_unit_positive_multiple`, `normalize_refuses_exactly_the_zero_vector`,
 `tangent_curve_normalized`, `tangent_surface_normalized`, `normal_surface_normalized` (+ `…_refused_iff_…`), end to end
 for rational shapes `normalized_tangent_rational_curve_on_domain`, `normalized_tangent_rational_surface_on_domain`,
-`normalized_normal_rational_surface_on_domain`.
+`normalized_normal_rational_surface_on_domain`; for the magnitude the ops really receive (any `m > 0`, e.g. the double):
+`normalized_vector_any_positive_magnitude`, `normalized_vector_unit_up_to_magnitude_bound`,
+`tangent_curve_normalized_any_positive_magnitude`; the model's own point function over `ℝ` inside a span:
+`rational_curve_point_function_hasDerivAt_inside_span`.
+Scope of the bundles (statement audit 5, K4): `CurveWF` / `KnotsOk` have no `1 ≤ p` and the dimension index only needs
+`j < d`, so the `…_on_domain` / quotient-rule statements also hold (of the model) for degree 0 and for 1-D "curves"; the
+library cannot build such objects (degree 0 means "unset": `ValueError: Please set … degree`; "A curve should be at least
+2-dimensional") and the driver ops answer ERR for `p = 0`.  All rational statements assume POSITIVE weights: with
+weights of mixed sign the weight function can vanish in the domain, the code raises `ZeroDivisionError` and the ops
+answer ERR (`Drv.cWZero` / `sWZero`).
 Derivatives on the span the REPAIRED search finds (F-01b; models `curveDersR`, `curveDersA32R`, `surfaceDersR`,
 `surfaceDersA36R` of `Model/SpanRGrid.lean`; ops `cdersr`, `cders32r`, `sdersr`, `sders36r`), every sorted knot vector with
 `U_p < U_n` – EMPTY last domain span allowed –, whole closed domain: `curve_derivatives_repaired_on_domain`,
@@ -924,11 +934,15 @@ theorem rational_surface_tangent_is_quotient_rule (pu pv : ℕ) (Uu Uv : ℕ →
     W A hW hA
 
 /-- **Rational surface normal.**  `operations.normal(surface, (u, v), normalize=False)` of a 3-D NURBS surface as the op
-    `nrms 1 …` runs it, every `(u, v)` of the closed domain: the call succeeds, returns the point of the tangent triple
+    `nrms 1 …` runs it, POSITIVE weights (`_hwt`: the guard under which the weight function cannot vanish – with weights
+    of mixed sign the code divides by `W(u,v) = 0` and raises `ZeroDivisionError`, the op answers `ERR`; the hypothesis
+    is not used by the proof, the model's `x/0 = 0` would go on), every `(u, v)` of the closed domain: the call
+    succeeds, returns the point of the tangent triple
     and the cross product of ITS two vectors (`Su c`, `Sv c` name the coordinates of the rational tangent vectors
     characterised by the theorem above), and that vector is orthogonal to both. -/
 theorem normal_rational_surface_on_domain (pu pv : ℕ) (Uu Uv : ℕ → F) (su sv : ℕ) (Pw : List (List F)) (u v : F)
     (hUu : KnotsOk pu Uu su) (hUv : KnotsOk pv Uv sv) (hlen : Pw.length = su * sv) (hP : NetOk (3+1) Pw)
+    (_hwt : ∀ i, i < Pw.length → 0 < (ptsGet Pw i).getD 3 0)
     (hu1 : Uu pu ≤ u) (hu2 : u ≤ Uu su) (hv1 : Uv pv ≤ v) (hv2 : v ≤ Uv sv)
     (κu κv : ℕ) (hκu : κu = findSpanLinear pu Uu su u) (hκv : κv = findSpanLinear pv Uv sv v)
     (Su Sv : ℕ → F)
@@ -1047,12 +1061,14 @@ theorem normalized_tangent_rational_surface_on_domain (pu pv : ℕ) (Uu Uv : ℕ
   tangentSurfaceN_rational_domain pu pv Uu Uv su sv Pw u v d c hUu hUv hlen hP hwt hu1 hu2 hv1 hv2 hc κu κv hκu hκv
     W A hW hA mu mv hmu hmv hu hv
 
-/-- **Normalised normal of a rational 3-D surface, end to end** (op `nrmsn 1 …`), `m` an exact root of the squared
+/-- **Normalised normal of a rational 3-D surface, end to end** (op `nrmsn 1 …`), positive weights (`_hwt`, the guard
+    against a vanishing weight function as above), `m` an exact root of the squared
     length of `S_u × S_v` (`Su`, `Sv` = coordinates of the two rational tangent vectors).  `m > 0`: the call returns the
     point and a vector `n` with `|n|² = 1`, three coordinates, `m·n = S_u × S_v`, orthogonal to `S_u` and `S_v`.
     `m ≥ 0`: the call is refused exactly when `S_u × S_v = 0`. -/
 theorem normalized_normal_rational_surface_on_domain (pu pv : ℕ) (Uu Uv : ℕ → F) (su sv : ℕ) (Pw : List (List F))
     (u v : F) (hUu : KnotsOk pu Uu su) (hUv : KnotsOk pv Uv sv) (hlen : Pw.length = su * sv) (hP : NetOk (3+1) Pw)
+    (_hwt : ∀ i, i < Pw.length → 0 < (ptsGet Pw i).getD 3 0)
     (hu1 : Uu pu ≤ u) (hu2 : u ≤ Uu su) (hv1 : Uv pv ≤ v) (hv2 : v ≤ Uv sv)
     (κu κv : ℕ) (hκu : κu = findSpanLinear pu Uu su u) (hκv : κv = findSpanLinear pv Uv sv v)
     (Su Sv : ℕ → F)
@@ -1468,7 +1484,7 @@ example : ∃ n, normalSurface (ratSurfaceDers (surfaceDersA36 2 1 exU exV 2 exP
       = some ((tangentSurface (ratSurfaceDers (surfaceDersA36 2 1 exU exV 2 exP 2 1 (1/3) (1/2) 1) 1)).1, n) ∧
       n.length = 3 := by
   obtain ⟨n, h, hn, _⟩ := normal_rational_surface_on_domain 2 1 exU exV 3 2 exP (1/3) (1/2) exU_knotsOk exV_knotsOk rfl
-    exP_ok (by decide +kernel) (by decide +kernel) (by decide +kernel) (by decide +kernel) 2 1 (by decide +kernel)
+    exP_ok exP_weights (by decide +kernel) (by decide +kernel) (by decide +kernel) (by decide +kernel) 2 1 (by decide +kernel)
     (by decide +kernel) _ _ (fun _ => rfl) (fun _ => rfl)
   exact ⟨n, h, by rw [hn]; rfl⟩
 
@@ -1505,7 +1521,7 @@ example : ∃ n, normalSurfaceN (ratSurfaceDers (surfaceDersA36 1 1 (fnOf rtSU) 
       = some ((tangentSurface (ratSurfaceDers (surfaceDersA36 1 1 (fnOf rtSU) (fnOf rtSU) 2 rtSPw 1 1 0 0 1) 1)).1, n) ∧
       Lin.normSq n = 1 ∧ n.length = 3 := by
   obtain ⟨n, h, hu, hl, _⟩ := (normalized_normal_rational_surface_on_domain 1 1 (fnOf rtSU) (fnOf rtSU) 2 2 rtSPw 0 0
-    rtSU_knotsOk rtSU_knotsOk rfl rtSPw_ok (by decide +kernel) (by decide +kernel) (by decide +kernel)
+    rtSU_knotsOk rtSU_knotsOk rfl rtSPw_ok rtSPw_weights (by decide +kernel) (by decide +kernel) (by decide +kernel)
     (by decide +kernel) 1 1 (by decide +kernel) (by decide +kernel) _ _ (fun _ => rfl) (fun _ => rfl) 150
     (by decide +kernel)).1 (by decide +kernel)
   exact ⟨n, h, hu, hl⟩
@@ -1544,5 +1560,73 @@ theorem span_polynomial_derivative (t : ℕ → K) (κ p : ℕ) (hsep : Sep t κ
 theorem rational_derivatives_leibniz (A w : ℕ → K) (hw : w 0 ≠ 0) (k : ℕ) :
     ∑ i ∈ Finset.range (k+1), (Nat.choose k i : K) * w i * ratDers A w (k - i) = A k :=
   ratDers_leibniz A w hw k
+
+/-! ### `normalize=True` with the magnitude the ops really receive (statement audit 5, K2), and the derivative of the
+model's own point function (K3) -/
+section anyMagnitude
+variable {F : Type} [Field F] [LinearOrder F] [IsStrictOrderedRing F]
+
+/-- **`vector_normalize` with ANY positive magnitude** (e.g. the double `vector_magnitude` returned, for which the
+    hypothesis `m·m = |v|²` of the theorems above is false): the call returns a vector `n` of the same length with
+    `m · n_j = v_j` for every coordinate and `|n|² · m² = |v|²`. -/
+theorem normalized_vector_any_positive_magnitude (v : List F) (m : F) (hm : 0 < m) :
+    ∃ n, Lin.vectorNormalize v m = some n ∧ n.length = v.length ∧ (∀ j, m * n.getD j 0 = v.getD j 0) ∧
+      Lin.normSq n * (m * m) = Lin.normSq v :=
+  vectorNormalize_any_positive v m hm
+
+/-- … under the sanity bound of the driver ops on the magnitude (`Drv.magOk`: `|m² − |v|²| · 2⁴⁹ ≤ |v|²`, met by a
+    correctly rounded double root) the result has unit length up to that bound: `| |n|² − 1 | · m² · 2⁴⁹ ≤ |v|²`. -/
+theorem normalized_vector_unit_up_to_magnitude_bound (v : List F) (m : F) (hm : 0 < m)
+    (hb : |m * m - Lin.normSq v| * 2 ^ 49 ≤ Lin.normSq v) :
+    ∃ n, Lin.vectorNormalize v m = some n ∧ |Lin.normSq n - 1| * (m * m) * 2 ^ 49 ≤ Lin.normSq v :=
+  vectorNormalize_magOk_bound v m hm hb
+
+/-- **The curve op `tancn` with any positive magnitude**: it returns the un-normalised point and a vector `n` with
+    `m · n = ` the tangent vector and `|n|² · m² = |tangent|²`. -/
+theorem tangent_curve_normalized_any_positive_magnitude (ders : List (List F)) (m : F) (hm : 0 < m) :
+    ∃ n, tangentCurveN ders m = some ((tangentCurve ders).1, n) ∧
+      (∀ j, m * n.getD j 0 = (tangentCurve ders).2.getD j 0) ∧
+      Lin.normSq n * (m * m) = Lin.normSq (tangentCurve ders).2 :=
+  tangentCurveN_any_positive ders m hm
+end anyMagnitude
+
+section pointFunction
+open Filter Topology
+
+/-- **Over ℝ, strictly inside a knot span, the MODEL'S OWN point function is differentiable and the op returns its
+    derivative**: `x ↦ operations.tangent(curve, x).point[j]` – span search included, not the hand-written quotient of one
+    span as in `rational_tangent_is_derivative_of_quotient_real` – has at `u ∈ (U_κ, U_{κ+1})` the derivative that the
+    tangent op returns at `u` (positive weights). -/
+theorem rational_curve_point_function_hasDerivAt_inside_span (p d : ℕ) (Ul : List ℝ) (Pw : List (List ℝ))
+    (hC : CurveWF p (d+1) Ul Pw) (hwt : ∀ i, i < Pw.length → 0 < (ptsGet Pw i).getD d 0) (u : ℝ)
+    (j : ℕ) (hj : j < d) (κ : ℕ) (hp : p ≤ κ) (hκn : κ < Pw.length)
+    (hin1 : fnOf Ul κ < u) (hin2 : u < fnOf Ul (κ+1)) :
+    HasDerivAt
+      (fun x => (tangentCurve (ratCurveDers (curveDersA32 p (fnOf Ul) Pw
+          (findSpanLinear p (fnOf Ul) Pw.length x) x 1))).1.getD j 0)
+      ((tangentCurve (ratCurveDers (curveDersA32 p (fnOf Ul) Pw
+          (findSpanLinear p (fnOf Ul) Pw.length u) u 1))).2.getD j 0) u := by
+  have hlo : ∀ x, fnOf Ul κ < x → fnOf Ul p ≤ x := fun x hx => le_trans (hC.mono hp) (le_of_lt hx)
+  have hhi : ∀ x, x < fnOf Ul (κ+1) → x < fnOf Ul Pw.length := fun x hx => lt_of_lt_of_le hx (hC.mono (by omega))
+  have hspan : ∀ x, fnOf Ul κ < x → x < fnOf Ul (κ+1) → findSpanLinear p (fnOf Ul) Pw.length x = κ := fun x h1 h2 =>
+    findSpanLinear_unique p (fnOf Ul) Pw.length x hC.pn hC.mono (hlo x h1) (hhi x h2) κ (le_of_lt h1) h2
+  have hu := hspan u hin1 hin2
+  obtain ⟨_, hD⟩ := rational_tangent_is_derivative_of_quotient_real p d Ul Pw hC hwt u (hlo u hin1)
+    (le_of_lt (hhi u hin2)) j hj κ hu.symm _ _ rfl rfl
+  rw [hu]
+  refine hD.congr_of_eventuallyEq ?_
+  have hmem : Set.Ioo (fnOf Ul κ) (fnOf Ul (κ+1)) ∈ 𝓝 u := Ioo_mem_nhds hin1 hin2
+  filter_upwards [hmem] with x hx
+  rw [hspan x hx.1 hx.2]
+  exact (rational_tangent_is_quotient_rule p d Ul Pw hC hwt x (hlo x hx.1) (le_of_lt (hhi x hx.2)) j hj κ
+    (hspan x hx.1 hx.2).symm _ _ rfl rfl).2.1
+end pointFunction
+
+/-- non-vacuity of the any-magnitude statements: the file's main witness (`rcPw`-type tangent `(32/25, -64/25)` has no
+    rational length) – here the vector `(1, 1)` with the rounded magnitude `1414/1000`: returned, `m · n = v`, and the
+    `magOk`-type bound with `2⁹` in place of `2⁴⁹` -/
+example : ∃ n, Lin.vectorNormalize ([1, 1] : List ℚ) (1414/1000) = some n ∧ (∀ j, (1414/1000) * n.getD j 0 = ([1, 1] : List ℚ).getD j 0) :=
+  let ⟨n, h, _, h2, _⟩ := normalized_vector_any_positive_magnitude ([1, 1] : List ℚ) (1414/1000) (by norm_num)
+  ⟨n, h, h2⟩
 
 end C02
